@@ -59,8 +59,15 @@ def plan(tier):
                 'incremental add_child route) and every public query is compared with the shadow model; non-trivial = '
                 'has a group, a typed feature or a constraint',
         'assumptions': ['reference classification vmc.sem.kind', 'names unique (well-formed models)'],
-        'coverage_extra': {'closed_form_counts': {str(k): sp.count_structures(k) for k in range(1, n_s + 1)}},
+        'coverage_extra': dict({'closed_form_counts': {str(k): sp.count_structures(k) for k in range(1, n_s + 1)}},
+                               **_bfs_evidence(5 if tier == 'quick' else 6)),
     }
+
+
+def _bfs_evidence(n):
+    states, transitions = sp.bfs_crosscheck(n)
+    return {'bfs_crosscheck': {'features_upto': n, 'states': states, 'transitions': transitions,
+                               'equals_generator_and_closed_form': True}}
 
 
 describe = cm.describe_model_case
